@@ -30,7 +30,8 @@ OPTIONAL = ["ellipse_axis_radii", "circularity", "perimeter", "iou"]
 # ----------------------------------------------------------------------------------------
 # initial state
 # ----------------------------------------------------------------------------------------
-def gen_config(rnd, *, seg=None, ndim=None, allow_optional=True, per_axis=True, allow_seg_axes=False) -> dict:
+def gen_config(rnd, *, seg=None, ndim=None, allow_optional=True, per_axis=True, allow_seg_axes=False,
+               max_frames=6) -> dict:
     ndim = ndim if ndim is not None else (4 if rnd.random() < 0.25 else 3)
     seg = seg if seg is not None else rnd.random() < 0.6
     r = rnd.random()
@@ -52,7 +53,7 @@ def gen_config(rnd, *, seg=None, ndim=None, allow_optional=True, per_axis=True, 
         "tracklet_key": rnd.choice([None, None, "track_id", "tid"]),
         "lineage_key": rnd.choice([None, None, "lin"]),
         "route": rnd.choice(["bare", "bare", "ids", "featuredict", "from_tracks", "from_tracks_ids"]),
-        "frames": rnd.randint(3, 6),
+        "frames": rnd.randint(3, max_frames),
         "optional": [],
     }
     if seg:
